@@ -488,3 +488,7 @@ impl H263State {
         })
     }
 }
+
+#[cfg(any(kani, ruffle_rs_h263_rs_verif))]
+#[path = "/verif/hooks/h263/decoder/state.rs"]
+mod verif_hook;
